@@ -221,6 +221,17 @@ def run_map(case):
             })
         if not np.array_equal(xin, x):
             fails.append({"key": "map=%s;input-mutated" % code, "msg": "fill_deriv_ modified the raw feature array"})
+        # statelessness: values evaluated at OTHER points (same sample count) between two derivative calls must not change
+        # the derivative at x (spin-polarised evaluation fills the values of both channels before differentiating either)
+        xo = np.ascontiguousarray(x[:, ::-1])  # the same admissible values, each at another sample index
+        yo = np.zeros(ns)
+        m.fill_feat_(yo, xo.copy())
+        dfdx2 = g0.copy()
+        m.fill_deriv_(dfdx2, dfdy.copy(), x.copy())
+        evals += 2
+        if not np.allclose(dfdx2, dfdx, rtol=1e-13, atol=0, equal_nan=True):
+            fails.append({"key": "map=%s;derivative-depends-on-earlier-value-call" % code,
+                          "msg": "fill_deriv_ at x returns something else after fill_feat_ was called at other points: max change %.3e" % np.nanmax(np.abs(dfdx2 - dfdx))})
         nz += int(np.count_nonzero(np.abs(want) > 1e-14) > 0)
         sig.append(_rnd(want[:, ::7]))
     return {"fail": fails, "evals": evals, "outcome": sig if nz else "trivial", "edges": 0,
